@@ -1420,15 +1420,102 @@ theorem axisBlocks_eq_region {start stop tc : Nat} (htc : 0 < tc) (hal : start %
   have h1 : stop - tc * k + tc - 1 = (stop + tc - 1) - tc * k := by omega
   rw [h1, Nat.sub_mul_div]
 
-theorem region_count_eq (axes : List (Nat × Nat × Nat × Nat))
+/-- the old variant: equal only when the source is chunked like the target -/
+theorem region_count_old_eq (axes : List (Nat × Nat × Nat × Nat))
     (h : ∀ a ∈ axes, 0 < a.2.2.2 ∧ a.2.2.1 = a.2.2.2 ∧ a.1 % a.2.2.2 = 0 ∧ a.1 ≤ a.2.1) :
-    regionAdvertised axes = regionReal axes := by
-  unfold regionAdvertised regionReal
+    regionAdvertisedOld axes = regionReal axes := by
+  unfold regionAdvertisedOld regionReal
   congr 1
   apply List.map_congr_left
   intro a ha
   obtain ⟨h1, h2, h3, h4⟩ := h a ha
   rw [h2]; exact axisBlocks_eq_region h1 h3 h4
+
+/-- along one axis, a non-empty source chunked `min tc len` has as many blocks as the region meets -/
+theorem axisBlocks_min_eq_region {start stop tc c : Nat} (htc : 0 < tc) (hal : start % tc = 0)
+    (hlt : start < stop) (hc : min c (stop - start) = min tc (stop - start)) :
+    axisBlocks (stop - start) c = regionAxisBlocks start stop tc := by
+  rw [← axisBlocks_eq_region htc hal (Nat.le_of_lt hlt)]
+  unfold axisBlocks
+  generalize hl : stop - start = len at hc
+  have hlen : 0 < len := by omega
+  by_cases h1 : tc ≤ len
+  · have : c = tc := by
+      rw [Nat.min_eq_left h1] at hc
+      by_cases h2 : c ≤ len
+      · rw [Nat.min_eq_left h2] at hc; exact hc
+      · rw [Nat.min_eq_right (by omega)] at hc; omega
+    rw [this]
+  · have h2 : len ≤ c := by
+      rw [Nat.min_eq_right (by omega)] at hc
+      by_cases h2 : c ≤ len
+      · rw [Nat.min_eq_left h2] at hc; omega
+      · omega
+    have hc0 : 0 < c := by omega
+    have e1 : (len + c - 1) / c = 1 := by
+      apply Nat.div_eq_of_lt_le <;> omega
+    have e2 : (len + tc - 1) / tc = 1 := by
+      apply Nat.div_eq_of_lt_le <;> omega
+    rw [e1, e2]
+
+/-- **Region stores advertise the number of tasks they run**, for every accepted region (aligned
+start, positive target chunks), whatever the chunking of the source. -/
+theorem region_count_eq (axes : List (Nat × Nat × Nat × Nat))
+    (h : ∀ a ∈ axes, 0 < a.2.2.2 ∧ a.1 % a.2.2.2 = 0 ∧ a.1 ≤ a.2.1) :
+    regionAdvertised axes = regionReal axes := by
+  unfold regionAdvertised regionRechunked
+  by_cases hempty : axes.any (fun a => a.2.1 - a.1 == 0) = true
+  · -- an empty source: no rechunk, and both counts are 0
+    simp only [hempty, Bool.not_true, Bool.false_and, Bool.false_eq_true, if_false]
+    obtain ⟨a, ha, ha0⟩ := List.any_eq_true.1 hempty
+    simp only [beq_iff_eq] at ha0
+    obtain ⟨h1, h2, h3⟩ := h a ha
+    have z1 : regionAdvertisedOld axes = 0 := by
+      unfold regionAdvertisedOld
+      apply numTasks_zero
+      refine List.mem_map.2 ⟨a, ha, ?_⟩
+      rw [ha0]; unfold axisBlocks
+      rcases Nat.eq_zero_or_pos a.2.2.1 with hz | hz
+      · rw [hz]
+      · apply Nat.div_eq_of_lt; omega
+    have z2 : regionReal axes = 0 := by
+      unfold regionReal
+      apply numTasks_zero
+      refine List.mem_map.2 ⟨a, ha, ?_⟩
+      have hle : a.1 ≤ a.2.1 := h3
+      have := axisBlocks_eq_region h1 h2 hle
+      rw [← this, ha0]; unfold axisBlocks
+      apply Nat.div_eq_of_lt; omega
+    rw [z1, z2]
+  · have hne : ∀ a ∈ axes, a.1 < a.2.1 := by
+      intro a ha
+      have h3 := (h a ha).2.2
+      rcases Nat.lt_or_ge a.1 a.2.1 with hlt | hge
+      · exact hlt
+      · exfalso; apply hempty
+        exact List.any_eq_true.2 ⟨a, ha, by simp; omega⟩
+    simp only [hempty, Bool.not_false, Bool.true_and]
+    split
+    · -- rechunked to `min tc len`
+      unfold regionAdvertisedOld regionReal
+      rw [List.map_map]
+      congr 1
+      apply List.map_congr_left
+      intro a ha
+      obtain ⟨h1, h2, _⟩ := h a ha
+      simp only [Function.comp]
+      exact axisBlocks_min_eq_region h1 h2 (hne a ha) (by simp)
+    · -- already chunked `min tc len`
+      rename_i heq
+      have heq' : axes.map (fun a => min a.2.2.1 (a.2.1 - a.1)) = axes.map (fun a => min a.2.2.2 (a.2.1 - a.1)) := by
+        simpa using heq
+      unfold regionAdvertisedOld regionReal
+      congr 1
+      apply List.map_congr_left
+      intro a ha
+      obtain ⟨h1, h2, _⟩ := h a ha
+      have := List.map_inj_left.1 heq' a ha
+      exact axisBlocks_min_eq_region h1 h2 (hne a ha) this
 
 /-! ## Locating a step in a run -/
 
